@@ -8,6 +8,11 @@ ids = [p["id"] for p in props]
 HOOK_COMMITS = ["332865e1b", "bf49db00e", "0b99e4fc0", "68bfb6d5a"]
 
 CHECKS = {
+ "C18": dict(
+   level="exploration", design="§4 C18",
+   technique="runtime monitoring: four-way consistency monitor over executions — DESCRIBE rows, announced output schema, DataType of every produced Array and variant/precision/scale/unit of every produced value (the last two compared inside the driver at the client boundary) — plus re-binding of the same expression in other syntactic places and fresh sessions",
+   text="Type-resolution sweep: every scalar/aggregate function name of list_functions(), every binary operator and the CASE/COALESCE/IN/BETWEEN/list/cast forms x argument tuples over 23 column types (all arity-1 tuples; arity-2/3 sampled in quick, exhaustive arity-2 in thorough). DESCRIBE decides which tuples bind; every binding expression is executed over a 4-row table and the four observations must agree; a sample is re-bound as UNION ALL branch, CTE, derived table, CREATE TABLE AS (+DESCRIBE of the table), GROUP BY key and over typed literals with constant folding on/off, and must get the same type and name. Unification (UNION ALL, CASE, COALESCE, VALUES) over ordered type pairs, random queries of the C01 generator, DESCRIBE of tables/views/table functions, SHOW, DML counts.",
+   note="No model of the overload rules is used: only agreement between observations of the same engine. Panics met while executing odd argument tuples are counted here and judged by C15. Four defects found by this check were repaired (SHOW announced Utf8; arithmetic re-bind widened decimals; int/float->decimal casts with scale >= 10 overflowed at bind; substring with start <= 0 never returned)."),
  "C14": dict(
    level="exploration", design="§4 C14",
    technique="runtime monitoring: client-boundary history of DDL/DML/SET statements with uniquely identified rows, checked offline against a sequential model of catalog + table contents + settings; histories run under the deterministic executor (random/lifo/fifo/pct schedules, forced yields) and the production thread pool",
